@@ -1239,6 +1239,88 @@ fn round_c11_slow(rt: &tokio::runtime::Runtime, hooks: &Hooks, seed: u64) -> Val
 // worker entry point
 // ---------------------------------------------------------------------------
 
+/// C07 under concurrency: a registration frame is removed while other threads append into that context. An append
+/// whose call starts after the registration was observed absent (get(id) == None) must be rejected.
+pub fn round_c07_race(seed: u64) -> Value {
+    let mut rng = Rng::new(seed);
+    let (store, dir) = new_store("e2c07");
+    let mut out: Vec<Value> = vec![];
+    let n_ctx = 3 + rng.below(4);
+    let mut after_gone = 0u64;
+    let mut accepted_before_gone = 0u64;
+    let mut trials = 0u64;
+    for t in 0..n_ctx {
+        let reg = store.append(Frame::builder("xs.context", ZERO_CONTEXT).build()).unwrap();
+        let ctx = reg.id;
+        // some frames in it first
+        for i in 0..rng.below(4) {
+            let _ = store.append(Frame::builder("t", ctx).meta(json!({"i": i})).build());
+        }
+        let appenders = 1 + rng.below(3);
+        let delay_us = rng.below(400) as u64;
+        let results: Arc<Mutex<Vec<(bool, bool, String)>>> = Arc::new(Mutex::new(vec![]));
+        let stop = Arc::new(AtomicBool::new(false));
+        let mut hs = vec![];
+        for a in 0..appenders {
+            let store = store.clone();
+            let results = results.clone();
+            let stop = stop.clone();
+            hs.push(std::thread::spawn(move || {
+                let t0 = Instant::now();
+                let mut rejected_after_gone = 0;
+                while t0.elapsed() < Duration::from_millis(400) && rejected_after_gone < 3 {
+                    let gone = store.get(&ctx).is_none();
+                    let r = store.append(Frame::builder("t", ctx).meta(json!({"racer": a})).build());
+                    let ok = r.is_ok();
+                    results.lock().unwrap().push((gone, ok, r.map(|f| f.id.to_string()).unwrap_or_default()));
+                    if gone && !ok {
+                        rejected_after_gone += 1;
+                    }
+                    if stop.load(Ordering::SeqCst) && gone {
+                        // the remover has returned and the registration is gone: a few more, then done
+                    }
+                }
+            }));
+        }
+        std::thread::sleep(Duration::from_micros(delay_us));
+        let removed = store.remove(&ctx);
+        stop.store(true, Ordering::SeqCst);
+        for h in hs {
+            let _ = h.join();
+        }
+        trials += 1;
+        let rs = results.lock().unwrap().clone();
+        for (gone, ok, id) in &rs {
+            if *gone {
+                after_gone += 1;
+                if *ok && out.len() < 3 {
+                    out.push(json!({"props": ["C07"], "signature": "race/append-accepted-after-its-registration-was-observed-gone", "detail": {"context": ctx.to_string(), "accepted_frame": id, "trial": t, "appenders": appenders, "remove_result": format!("{:?}", removed.is_ok())}}));
+                }
+            } else if *ok {
+                accepted_before_gone += 1;
+            }
+        }
+        // afterwards, sequentially: rejected, and no frame of the context newer than the removal is visible
+        if store.append(Frame::builder("t", ctx).build()).is_ok() && out.len() < 3 {
+            out.push(json!({"props": ["C07"], "signature": "race/append-accepted-after-remove-returned", "detail": {"context": ctx.to_string()}}));
+        }
+    }
+    drop(store);
+    crate::session::rm_dir(&dir);
+    json!({
+        "mode": "c07race",
+        "seed": seed,
+        "config": {"contexts": n_ctx},
+        "frames": accepted_before_gone,
+        "race.trials": trials,
+        "race.appends_called_after_the_registration_was_gone": after_gone,
+        "class": format!("c07race{}", n_ctx),
+        "violations": out,
+        "inconclusive": null,
+        "nontrivial": after_gone > 0,
+    })
+}
+
 pub fn worker_main(mode: &str, seed: u64, first: u64, count: u64) -> ! {
     let rt = tokio::runtime::Builder::new_multi_thread().worker_threads(4).enable_all().build().unwrap();
     let hooks = install_hooks();
@@ -1257,6 +1339,7 @@ pub fn worker_main(mode: &str, seed: u64, first: u64, count: u64) -> ! {
             "c02" => round_c02(&rt, &hooks, s),
             "c03" => round_c03(&rt, &hooks, s),
             "c11slow" => round_c11_slow(&rt, &hooks, s),
+            "c07race" => round_c07_race(s),
             _ => round_c11(&rt, &hooks, s),
         }));
         let mut v = match r {
@@ -1278,6 +1361,7 @@ pub fn round_main(mode: &str, round_seed: u64) -> ! {
         "c02" => round_c02(&rt, &hooks, round_seed),
         "c03" => round_c03(&rt, &hooks, round_seed),
         "c11slow" => round_c11_slow(&rt, &hooks, round_seed),
+        "c07race" => round_c07_race(round_seed),
         _ => round_c11(&rt, &hooks, round_seed),
     };
     println!("{}", v);
